@@ -2014,8 +2014,12 @@ func authMethodToBitmask(method AuthMethod) int {
 	case AuthSciTokens:
 		return AuthBitmaskSciTokens
 	case AuthIDTokens:
-		// IDTokens not defined in HTCondor's condor_auth.h, map to SciTokens for compatibility
-		return AuthBitmaskSciTokens
+		// HTCondor maps the names TOKEN / TOKENS / IDTOKEN / IDTOKENS all to
+		// CAUTH_TOKEN (SecMan::sec_char_to_auth_method). Mapping IDTOKENS to
+		// CAUTH_SCITOKENS made the client run SCITOKENS (bitmaskToAuthMethod(4096))
+		// while the server ran the IDTOKENS exchange, so IDTOKENS on both ends
+		// could never authenticate.
+		return AuthBitmaskToken
 	default:
 		return 0
 	}
@@ -2313,6 +2317,16 @@ func (a *Authenticator) handleClientAuthentication(ctx context.Context, negotiat
 		if serverResponse&availableBitmask == 0 {
 			return fmt.Errorf("server selected authentication method %s (0x%x) which was not offered (0x%x)",
 				selectedMethod, serverResponse, availableBitmask)
+		}
+
+		// Several configured names share one wire bit (TOKEN and IDTOKENS are both
+		// CAUTH_TOKEN): run and report the method under the name this client offered,
+		// so that both ends name the same method.
+		for _, m := range clientMethods {
+			if authMethodToBitmask(m) == serverResponse {
+				selectedMethod = m
+				break
+			}
 		}
 
 		slog.Debug(fmt.Sprintf("🔐 CLIENT: Attempting authentication method: %s", selectedMethod), "destination", "cedar")
